@@ -98,7 +98,7 @@ def run(ctx):
             n_down += 1
             n_eval += sm["nbins"] * r["LP"]
             m = sm["lvl"] / lim
-            wk = "stopband_level/2^-bits" + (" [F-PH1 / F-SG3 signature]" if fl.get("F-PH1") or fl.get("F-SG3") else "")
+            wk = "stopband_level/2^-bits" + (" [F-PH1 / F-SG3 / F-SG6 signature]" if fl.get("F-PH1") or fl.get("F-SG3") or fl.get("F-SG6") else "")
             worst[wk] = max(worst.get(wk, 0), m)
             if sm.get("lvl_low") is not None:
                 wk = "stopband_level between stopband_begin and the lower Nyquist limit/2^-bits"
@@ -258,7 +258,7 @@ def run(ctx):
         "counted, and up to 4 of them are probed in a child process (KNOWN-FINDING line when the misbehaviour shows)",
         "the stop band is read as the property states it: everything at or above the CONFIGURED stop-band start up to the input Nyquist limit, "
         "also where it would not alias (stopband_begin < 1) and also when up-sampling; with stopband_begin > 1 it starts at stopband_begin",
-        "known findings of the pinned tree (known_findings.d/signal.json: F-PH1, F-SG2, F-SG3) are recognised by a configuration/plan signature AND a "
+        "known findings of the pinned tree (known_findings.d/signal.json: F-PH1, F-SG3, F-SG6) are recognised by a configuration/plan signature AND a "
         "symptom bound; their margins are listed separately under worst_margins ([... signature])",
     )
     if broken and not ctx.violations:
